@@ -798,3 +798,6 @@ fires('s11-region-saver-args-swapped', ['C15'], [(CMDU, "            kwargs[\"sa
 fires('s12-use-channel-option-removed', ['C15'], [(CMD, "            \"-u\",\n            \"--use-channel\",\n            dest=\"use_channel\",", "            \"-U\",\n            \"--use-channels\",\n            dest=\"use_channels\",")])
 fires('s13-stdin-close-keeps-open', ['C11'], [(IO, "    def close(self):\n        self._is_open = False\n\n    def _read_from_stream(self, size):\n        bytes_to_read = size * self._sample_size", "    def close(self):\n        self._is_open = True\n\n    def _read_from_stream(self, size):\n        bytes_to_read = size * self._sample_size")])
 fires('s14-file-close-keeps-stream', ['C11'], [(IO, "    def close(self):\n        if self._audio_stream is not None:\n            self._audio_stream.close()\n            self._audio_stream = None\n", "    def close(self):\n        if self._audio_stream is not None:\n            self._audio_stream.close()\n")])
+fires('s15-recorder-hop-from-block', ['C19', 'C10'], [(UTIL, "            hop_dur=hop_dur,\n            record=True,", "            hop_dur=block_dur,\n            record=True,")])
+fires('s16-stdin-read-returns-none-for-data', ['C11'], [(IO, "        data = self._stream.read(bytes_to_read)\n        if data:\n            return data\n        return None", "        data = self._stream.read(bytes_to_read)\n        if not data:\n            return data\n        return None")])
+fires('s17-selector-normalises-with-width', ['C07'], [(UTIL, "            selected += channels", "            selected += sample_width")])
